@@ -1801,7 +1801,18 @@ func (it *Interp) opReset(op *Op) {
 			return
 		}
 		b.W.Reset()
+		// op.N further rounds on the now empty world: a few queries open at once, all closed, Reset
+		for k := 0; k < op.N; k++ {
+			q1, q2, q3 := b.all.Query(), b.all.Query(), b.all.Query()
+			q2.Close()
+			q1.Close()
+			q3.Close()
+			b.W.Reset()
+		}
 	})
+	if valid && op.N > 0 {
+		it.count("many-resets-in-a-row")
+	}
 	if !valid {
 		return
 	}
@@ -1840,6 +1851,7 @@ func (it *Interp) opReset(op *Op) {
 			}
 		}
 	}
+	it.checkResources() // (also through the typed handles the backends have kept)
 }
 
 func (it *Interp) opGC(op *Op) {
